@@ -11,7 +11,7 @@
 
 static int thorough;
 
-typedef struct { int ver, kx; uint16_t suite; int pmtu; const char *name; } pcfg_t;
+typedef struct { int ver, kx; uint16_t suite; int pmtu; const char *name; int eager; } pcfg_t;
 static const pcfg_t pcfgs[] = {
     { V_DTLS12, KX_PSK, TLS_PSK_WITH_AES_128_CBC_SHA, 0, "dtls12-psk-cbc" },
     { V_DTLS10, KX_PSK, TLS_PSK_WITH_AES_128_CBC_SHA, 0, "dtls10-psk-cbc" },
@@ -19,6 +19,10 @@ static const pcfg_t pcfgs[] = {
     { V_DTLS12, KX_ECDHE_RSA, TLS_ECDHE_RSA_WITH_AES_128_CBC_SHA, 0, "dtls12-ecdhe-rsa" },
     { V_DTLS12, KX_ECDHE_RSA, TLS_ECDHE_RSA_WITH_AES_128_CBC_SHA, 512, "dtls12-ecdhe-pmtu512" },
     { V_DTLS12, KX_RSA, TLS_RSA_WITH_AES_128_CBC_SHA, 400, "dtls12-rsa-pmtu400" },
+    /* server-speaks-first applications: the server writes its datagram the moment ITS handshake completes (it has handed
+       its final flight to the transport), whether or not the client has seen that flight */
+    { V_DTLS12, KX_PSK, TLS_PSK_WITH_AES_128_CBC_SHA, 0, "dtls12-psk-cbc-server-speaks-first", 1 },
+    { V_DTLS10, KX_RSA, TLS_RSA_WITH_AES_128_CBC_SHA, 0, "dtls10-rsa-server-speaks-first", 1 },
 };
 #define NPCFG ((int) (sizeof(pcfgs) / sizeof(pcfgs[0])))
 
@@ -197,7 +201,7 @@ static void run_schedule(int pi, const devi_t *devs, int ndev, run_t *R, int *va
 {
     const pcfg_t *pc = &pcfgs[pi];
     wcfg_t c;
-    int turn = 0, phase = 0, k, idle_rounds = 0, guard = 0;
+    int turn = 0, phase = 0, k, idle_rounds = 0, guard = 0, srv_spoke = 0;
     static const int alen[3] = { 20, 33, 17 };
     memset(R, 0, sizeof(*R));
     *valid = 1;
@@ -235,9 +239,31 @@ static void run_schedule(int pi, const devi_t *devs, int ndev, run_t *R, int *va
         }
         /* the applications start talking as soon as both handshakes are complete (they do not wait for
            the network to go quiet): A0, A1 client->server, A2 server->client, one per scheduler iteration */
+        if (pc->eager && !srv_spoke && world_is_complete(&R->w, 1))
+        {
+            unsigned char msg[64];
+            int i;
+            srv_spoke = 1;
+            for (i = 0; i < alen[2]; i++)
+            {
+                msg[i] = (unsigned char) ('A' + 2 * 7 + i);
+            }
+            R->app_len[2] = alen[2];
+            R->app_hash[2] = fnv1a(msg, (size_t) alen[2], FNV0);
+            if (!world_is_complete(&R->w, 0))
+            {
+                R->app_dropped++;   /* written before the peer could read it: DTLS does not retransmit application data */
+            }
+            world_app_send(&R->w, 1, msg, alen[2]);
+            store_new(R);
+        }
         if (phase == 0 && world_is_complete(&R->w, 0) && world_is_complete(&R->w, 1))
         {
             phase = 1;
+        }
+        if (phase == 3 && pc->eager)
+        {
+            phase = 4;   /* the server has spoken already */
         }
         if (phase >= 1 && phase <= 3)
         {
